@@ -122,3 +122,43 @@ def run_timelines(ctx, scripts):
                 prev = s
         samples.append({"script": sc, "status_changes": changes, "chronyd_requests": j["chronyd_requests"], "daemon_alive_at_end": j["daemon_alive_at_end"], "daemon_exit_code": j.get("daemon_exit_code")})
     return judged, viol, samples, None
+
+
+def run_phc_names(ctx):
+    """Whole release binary with reference-id names of every spelling (letters, digits, hex digits only).
+    Returns (violations_bound, violations_status, info): the PHC term missing from a Synchronized bound;
+    Synchronized published although the PHC error-bound attribute cannot be read."""
+    from .common import VERIF
+    if not sandbox.available():
+        return [], [], {"inconclusive": "unshare -m with a private tmpfs on /run is not available"}
+    relbin = os.path.join(ctx.build_repo(["clock-bound-d", "clock-bound-ffi"], release=True), "clockbound")
+    names = ["PHC0", "ENA0", "FEED", "AAAA", "1234", "ABCD", "FACE", "0001", "BEEF", "C0DE", "GPS0", "9A9A"]
+    chunks = [names[i::4] for i in range(4)]
+    cmds, outs = [], []
+    for i, ch in enumerate(chunks):
+        o = os.path.join(ctx.tmp, "phcnames-%d.json" % i)
+        outs.append(o)
+        cmds.append(sandbox.wrap(["python3", os.path.join(VERIF, "vlib", "nsrun.py"), "phcnames", relbin, o] + ch))
+    vb, vs = [], []
+    info = {"runs": 0, "names": names, "synchronized_records_with_phc_term": 0, "runs_without_attribute_not_synchronized": 0}
+    for (rc, text), o in zip(ctx.run_parallel(cmds, 300), outs):
+        if rc != 0 or not os.path.exists(o):
+            info["inconclusive"] = "a reference-id run did not finish: %s" % text[-200:]
+            continue
+        for r in json.load(open(o)):
+            info["runs"] += 1
+            sync = [(st, b, n) for st, b, n in r["records_seen"] if st == 1]
+            if r["attribute_present"]:
+                if not sync:
+                    info["inconclusive"] = "no Synchronized record seen for --phc-ref-id %s (%s)" % (r["name"], r["stderr_tail"][-100:])
+                for st, b, n in sync:
+                    if b < 5000000:
+                        vb.append({"sig": "phc-term-missing-for-this-reference-id", "detail": "clockbound --phc-ref-id %s --phc-interface eth0, chronyd reports reference id '%s', the PHC error bound attribute reads 5000000 ns: Synchronized published with bound %d ns (%d samples)" % (r["name"], r["name"], b, n), "replay": ""})
+                    else:
+                        info["synchronized_records_with_phc_term"] += 1
+            else:
+                if sync:
+                    vs.append({"sig": "synchronized-although-phc-bound-unreadable", "detail": "clockbound --phc-ref-id %s, chronyd reports reference id '%s', the PHC error bound attribute does not exist: Synchronized published (bound %d ns, %d samples); the report must not count as a measurement" % (r["name"], r["name"], sync[0][1], sync[0][2]), "replay": ""})
+                else:
+                    info["runs_without_attribute_not_synchronized"] += 1
+    return vb, vs, info
